@@ -3,8 +3,9 @@
 One case = one session form (decorator, context manager, generator / coroutine function, Flask integration over a
 stub flask package, Bottle plugin over a stub bottle package) x options x a body script per attempt, executed on a
 fresh file-backed SQLite database.  The committed table contents are read back through a separate plain sqlite3
-connection at every probe point and at the end; the number of body executions and the exception that leaves the
-session are recorded.  Everything is compared with vlib/c18_model.predict (a reference function that imports
+connection at every probe point (attempt start, after explicit commit(), after a nested session exits, before a
+generator suspends), right after the session and again after one following empty db_session; the number of body
+executions and the exception that leaves the session are recorded.  Everything is compared with vlib/c18_model.predict (a reference function that imports
 nothing from Pony; its rules R1-R9 cite the db_session documentation and pony/orm/tests/test_db_session.py).
 """
 import os, shutil
@@ -20,7 +21,7 @@ RULE = ('hypothesis draws form in {decorator, context manager, generator/corouti
         'scripts of steps set/del/flush/commit/rollback/raise X/doomed duplicate insert/yield(with caught classes)/'
         'nested session (decorator or context manager with own options, depth <= 3, optionally catching the inner '
         'exception) x for generators a consumer script of next/send/throw X/close. One case = one such script run on a '
-        'fresh SQLite file. Non-trivial = at some commit-or-rollback decision (normal end, exception leaving the '
+        'fresh SQLite file, followed by one empty db_session (which must not make anything durable). Non-trivial = at some commit-or-rollback decision (normal end, exception leaving the '
         'outermost body, suspension) uncommitted changes are pending, or the body is re-run; distinct by '
         '(form, options, executed step trace, consumer actions used). Refusals (TypeError for retry on a context '
         'manager / generator, same class in both lists; TransactionError on suspension with only reads in an open '
